@@ -232,6 +232,12 @@ def _internal_connection_error(msg):
     gone = re.findall(r"Attempted to connect from '[^']+' to '([^']+)', but '\1' doesn't exist", msg)
     if gone and all("." in g for g in gone):
         return "interface:" + "+".join(sorted({g for g in gone}))[:120]
+    # inputs that a library group promotes to ONE name declare different units (one of them none at all)
+    amb = re.search(r"The following inputs promoted to '([^']+)' have different units:\s*\n((?:\s*\S+[ \t]*\S*[ \t]*\n)+)", msg)
+    if amb:
+        names = [ln.split()[0] for ln in amb.group(2).splitlines() if ln.strip() and "." in ln.split()[0]]
+        if names and len({n.split(".")[0] for n in names}) == 1:
+            return "units:%s:%s" % (names[0].split(".")[0], amb.group(1))
     pairs = re.findall(r"Can't connect '([^']+)' to '([^']+)'", msg)
     if not pairs:
         return None
